@@ -9,15 +9,13 @@
 
   Hypotheses added to the brief's: `SeedOk r p` (a DATE seed has no BYHOUR/BYMINUTE/BYSECOND) and `YlySup r`
   (`RrYlyRfc1`): no BYEASTER; BYMONTHDAY / BYMONTH at most 62 / 12 values (the parser's bit sets); BYDAY ordinals
-  within -53..53 (ordinal -54, which `WfRule` admits, wraps around in `ycw_get_yday`); and one of the combinations
-    - no BYxxx date part, or BYMONTH alone
-    - BYMONTHDAY, with or without BYMONTH, BYDAY with plain weekdays as a limit
-    - BYYEARDAY, BYDAY with plain weekdays as a limit
-    - BYDAY (plain and / or with ordinals), with or without BYMONTH
-    - BYWEEKNO, with BYDAY (plain weekdays) or without
-  Left out (the code unites what the specification intersects): BYWEEKNO with BYMONTH / BYMONTHDAY / BYYEARDAY,
-  BYYEARDAY with BYMONTH / BYMONTHDAY; and BYDAY entries with ordinals next to BYMONTHDAY / BYYEARDAY / BYWEEKNO (the
-  code ignores them, the specification's `bydayLimit` reads them as plain weekdays).
+  within -53..53 (ordinal -54, which `WfRule` admits, wraps around in `ycw_get_yday`); and BYDAY next to BYWEEKNO
+  (without BYYEARDAY / BYMONTHDAY) has plain weekdays only (RFC 5545 forbids ordinals there; the code skips such
+  entries, the specification's `bydayLimit` reads them as plain weekdays).
+  All combinations of BYMONTH / BYWEEKNO / BYYEARDAY / BYMONTHDAY / BYDAY are covered (`ylyCand_iff`, RrYlyRfc2b): the
+  builders expand each part on its own account, `lim_cand` then keeps what passes every part present, and BYDAY next
+  to BYMONTHDAY / BYYEARDAY limits through `dow_limit_p` (ordinals counted within the month with BYMONTH, within the
+  year without).
   Unlike the monthly filler no "first occurrence" hypothesis is needed: the calendar repeats after 28 periods at most,
   the loop allows 63 without a hit.
 -/
